@@ -9,6 +9,7 @@
 // *measurement* only (layout statistics), never by an oracle.
 #include "../rt/rt.h"
 #include "../rt/tracked.h"
+#include "../rt/elems.h"
 
 #include <tulz/container/RingBuffer.h>
 
@@ -22,53 +23,8 @@ using rt::Tracked;
 
 namespace {
 
-struct Pod24 {
-    int64_t a;
-    int32_t b;
-    char c[12];
-    bool operator==(const Pod24 &o) const { return a == o.a && b == o.b && memcmp(c, o.c, 12) == 0; }
-};
-static_assert(sizeof(Pod24) == 24);
-
-template<class T> struct Elem;
-template<> struct Elem<int> {
-    static constexpr const char *name = "int";
-    static int make(int64_t v) { return (int) v; }
-    static int64_t val(const int &x) { return x; }
-};
-template<> struct Elem<Pod24> {
-    static constexpr const char *name = "pod24";
-    static Pod24 make(int64_t v) {
-        Pod24 p;
-        p.a = v;
-        p.b = (int32_t) (v * 3 + 1);
-        for (int i = 0; i < 12; ++i) p.c[i] = (char) (v + i);
-        return p;
-    }
-    static int64_t val(const Pod24 &p) {
-        if (p.b != (int32_t) (p.a * 3 + 1)) return INT64_MIN + 1;
-        for (int i = 0; i < 12; ++i) if (p.c[i] != (char) (p.a + i)) return INT64_MIN + 2;
-        return p.a;
-    }
-};
-template<> struct Elem<Tracked> {
-    static constexpr const char *name = "tracked";
-    static Tracked make(int64_t v) { return Tracked(v); }
-    static int64_t val(const Tracked &t) { return t.get(); }
-};
-template<> struct Elem<std::string> {
-    static constexpr const char *name = "string";
-    static std::string make(int64_t v) {
-        std::string s = "v" + std::to_string(v);
-        if (v % 3) s += "-a-suffix-long-enough-to-leave-the-small-buffer";   // heap-backed
-        return s;
-    }
-    static int64_t val(const std::string &s) {
-        if (s.size() < 2 || s[0] != 'v') return INT64_MIN + 3;
-        int64_t v = strtoll(s.c_str() + 1, nullptr, 10);
-        return s == make(v) ? v : INT64_MIN + 4;
-    }
-};
+using rt::Elem;
+using rt::Pod24;
 
 struct Cover {
     std::map<std::string, uint64_t> opCount;
